@@ -11,5 +11,6 @@ CONSTANTS
   MaxPending = 2
   CleanupChecksGen = FALSE
   HumanChecksProfile = TRUE
+  HumanViaRecord = FALSE
 INVARIANTS LookupCorrect GhostConsistent
 CHECK_DEADLOCK FALSE
